@@ -431,7 +431,7 @@ func (ea *ErrAnalysis) callClass(call *ssa.Call, f *ssa.Function, seen map[ssa.V
 				}
 			}
 			if len(out) == 0 {
-				out.add(ErrClass{Cause: "unknown", Origin: fn + "#dyncall", Pos: call.Pos(), Fn: f})
+				out.add(ErrClass{Cause: "unknown", Origin: fn + "#dyncall", Pos: call.Pos(), Fn: f, Wrapped: true}) // an unresolved dynamic callee hands its error on as it is: nothing was re-created here
 			}
 			return out
 		}
